@@ -178,9 +178,9 @@ Fixpoint run_phases (u : nat) (n : Z) (from : list Z) (phs : list phase) (acc : 
   end.
 
 (* ---- the memory reader across operations on one tag object.
-   Its state is the pair (data_from_tag, data_in_cache); a write command that fails leaves data_from_tag as it was
-   (it is updated only after the command succeeded), whether the tag never received the command ([Lost]) or
-   executed it and only the response was lost ([Unanswered]). ---- *)
+   Its state is the pair (data_from_tag, data_in_cache).  A write command can fail in two ways: the tag never
+   received it ([Lost]) or executed it and only the response was lost ([Unanswered]); data_from_tag is updated
+   only after a command succeeded. ---- *)
 Inductive fate := Lost | Unanswered.
 
 (* the commands of one synchronize; [k] = Some j: the j-th command from now on fails.  Result: tag memory,
@@ -206,8 +206,11 @@ Fixpoint exec_sync (n : Z) (ws : list write) (m from : list Z) (k : option nat) 
       end
   end.
 
-(* one attempt of a write operation (a list of phases) starting from the reader state (from, cache) *)
-Fixpoint run_attempt (u : nat) (n : Z) (m from cache : list Z) (phs : list phase) (k : option nat) (f : fate)
+(* one attempt of a write operation (a list of phases) starting from the reader state (from, cache).
+   When a synchronize fails the memory reader forgets what it has read and changed (repair
+   c02-tlv-reader-reset-after-failed-write): the next access loads from the tag again, i.e. data_from_tag and
+   data_in_cache are the readable image [vw m'] of the tag memory as the failed command left it. *)
+Fixpoint run_attempt (u : nat) (n : Z) (vw : list Z -> list Z) (m from cache : list Z) (phs : list phase) (k : option nat) (f : fate)
   : res unit * (list Z * list Z * list Z) * list write :=
   match phs with
   | [] => (Ok tt, (m, from, cache), [])
@@ -216,8 +219,8 @@ Fixpoint run_attempt (u : nat) (n : Z) (m from cache : list Z) (phs : list phase
     | Ok c =>
       match exec_sync n (sync_cmds u from c) m from k f with
       | (m', from', ex, Some k') =>
-        let '(r, st, ex2) := run_attempt u n m' from' c rest k' f in (r, st, ex ++ ex2)
-      | (m', from', ex, None) => (tag_err, (m', from', c), ex)
+        let '(r, st, ex2) := run_attempt u n vw m' from' c rest k' f in (r, st, ex ++ ex2)
+      | (m', from', ex, None) => (tag_err, (m', vw m', vw m'), ex)
       end
     | Err e => (Err e, (m, from, cache), [])
     | Crash x => (Crash x, (m, from, cache), [])
